@@ -50,7 +50,7 @@ fn pcrel_form(k: u8) -> (Op, Vec<u8>) {
     forms[k as usize % forms.len()].clone()
 }
 
-fn source_for(spec: &ProgSpec, inject: Inject) -> Option<(String, bool, bool)> {
+fn source_for(spec: &ProgSpec, inject: Inject) -> Option<(String, bool, bool, Option<refasm::RefImage>)> {
     let built = proggen::build(spec);
     let mut p = built.program.clone();
     let mut extra = String::new();
@@ -69,21 +69,38 @@ fn source_for(spec: &ProgSpec, inject: Inject) -> Option<(String, bool, bool)> {
             }
             let stmts: Vec<usize> = (0..p.lines.len()).filter(|i| matches!(p.lines[*i].body, Body::Stmt(_))).collect();
             let at = stmts.get(pos as usize % (stmts.len() + 1)).copied().unwrap_or(p.lines.len());
+            // padding sized around the reach of the field: barely out of reach (small programs),
+            // comfortably out of reach, and far away; sometimes barely in reach (then the source is
+            // valid, which the reference decides)
+            let reach = 1i32 << (op.pcrel_bits().unwrap() - 1);
+            let pad = match (pos >> 4) % 6 {
+                0 => reach,
+                1 => reach + 1,
+                2 => reach + 40,
+                3 => 2 * reach - 10,
+                4 => reach - 60,
+                _ => 3000,
+            };
             p.lines.insert(at, Line::stmt(None, Stmt::new(op, &regs, Operand::Label("FARAWAY".into()))));
-            p.lines.push(Line::stmt(None, Stmt::new(Op::Blkw, &[], Operand::Lit(Lit::Dec(3000)))));
+            p.lines.push(Line::stmt(None, Stmt::new(Op::Blkw, &[], Operand::Lit(Lit::Dec(pad)))));
             p.lines.push(Line::stmt(Some("FARAWAY"), Stmt::simple(Op::Halt)));
         }
     }
-    let valid = match (refasm::judge(&p, built.stack), inject) {
-        (Verdict::Accept(_), Inject::None) => true,
-        (Verdict::Reject(_), Inject::OutOfReach(..)) => false,
+    let verdict = refasm::judge(&p, built.stack);
+    let image = match &verdict {
+        Verdict::Accept(img) if matches!(inject, Inject::None | Inject::OutOfReach(..)) => Some(img.clone()),
+        _ => None,
+    };
+    let valid = match (verdict, inject) {
+        (Verdict::Accept(_), Inject::None | Inject::OutOfReach(..)) => true,
+        (Verdict::Reject("label out of reach"), Inject::OutOfReach(..)) => false,
         (Verdict::Accept(_), _) => false, // the error is in the appended text
         _ => return None,
     };
     let mut text = refasm::render(&p, Layout::CANON).text;
     text.push_str(&extra);
     let uses_stack = p.lines.iter().any(|l| matches!(&l.body, Body::Stmt(s) if s.op.is_stack()));
-    Some((text, valid, uses_stack))
+    Some((text, valid, uses_stack, image))
 }
 
 pub fn judge_case(c: &Case) -> Obs {
@@ -95,7 +112,7 @@ pub fn judge_case(c: &Case) -> Obs {
 
 fn judge_source(spec: &ProgSpec, inject: Inject, stack_flag: bool) -> Obs {
     let mut obs = Obs::default();
-    let Some((text, _valid, uses_stack)) = source_for(spec, inject) else {
+    let Some((text, valid, uses_stack, image)) = source_for(spec, inject) else {
         obs.excluded = Some("generator: program not as intended");
         return obs;
     };
@@ -112,16 +129,15 @@ fn judge_source(spec: &ProgSpec, inject: Inject, stack_flag: bool) -> Obs {
         obs.label("uses-stack-mnemonics");
     }
     // will the program terminate if it is run? (only valid programs are run to completion)
-    let built = proggen::build(spec);
-    let terminates = match refasm::judge(&built.program, built.stack) {
-        Verdict::Accept(img) => {
+    let terminates = match &image {
+        Some(img) => {
             let orig = img.orig.unwrap_or(0x3000);
             orig as usize + img.words.len() + 1 <= 0x10000
                 && !matches!(refvm::run(Vm::load(orig, &img.words, stack_flag), &[], 20_000, Some(0xFFFD)).stop, RunStop::OutOfFuel | RunStop::Unspecified("rti"))
         }
-        _ => false,
+        None => false,
     };
-    if inject == Inject::None && !terminates {
+    if valid && !terminates {
         obs.excluded = Some("program would not terminate when run");
         return obs;
     }
